@@ -18,9 +18,12 @@ import (
 	"errors"
 	"fmt"
 	"net"
+	"os"
+	"strconv"
 	"strings"
 	"sync"
 	"sync/atomic"
+	"time"
 
 	"golang.org/x/crypto/ssh"
 	"golang.org/x/crypto/ssh/testdata"
@@ -150,7 +153,7 @@ func sign(k *Key, format string, data []byte) []byte {
 type Item struct {
 	Name  string
 	User  string
-	Tier  int  // 0: in every alphabet; 1: also left out of the smallest (depth-4) alphabet; 2: only in the full alphabet
+	Tier  int // 0: in every alphabet; 1: also left out of the smallest (depth-4) alphabet; 2: only in the full alphabet
 	Build func(sid []byte) [][]byte
 }
 
@@ -290,13 +293,15 @@ type Outcome struct {
 	SamePerms bool    // VerifiedPublicKeyCallback OutAccept: hand back the Permissions it was given
 }
 
-func Accept() *Outcome             { return &Outcome{Kind: ref.OutAccept} }
-func AcceptNil() *Outcome          { return &Outcome{Kind: ref.OutAccept, NilPerms: true} }
-func AcceptSrc(s string) *Outcome  { return &Outcome{Kind: ref.OutAccept, Src: &s} }
-func Reject() *Outcome             { return &Outcome{Kind: ref.OutReject} }
-func RejectBanner() *Outcome       { return &Outcome{Kind: ref.OutReject, Banner: true} }
-func Partial(next int) *Outcome    { return &Outcome{Kind: ref.OutPartial, Next: next} }
-func PartialBad(next int) *Outcome { return &Outcome{Kind: ref.OutPartial, Next: next, WithPerms: true} }
+func Accept() *Outcome            { return &Outcome{Kind: ref.OutAccept} }
+func AcceptNil() *Outcome         { return &Outcome{Kind: ref.OutAccept, NilPerms: true} }
+func AcceptSrc(s string) *Outcome { return &Outcome{Kind: ref.OutAccept, Src: &s} }
+func Reject() *Outcome            { return &Outcome{Kind: ref.OutReject} }
+func RejectBanner() *Outcome      { return &Outcome{Kind: ref.OutReject, Banner: true} }
+func Partial(next int) *Outcome   { return &Outcome{Kind: ref.OutPartial, Next: next} }
+func PartialBad(next int) *Outcome {
+	return &Outcome{Kind: ref.OutPartial, Next: next, WithPerms: true}
+}
 
 // SetSpec is one callback set; a nil member means the callback is absent.
 type SetSpec struct{ Password, PublicKey, Kbd *Outcome }
@@ -517,6 +522,25 @@ type Run struct {
 	Report ref.Report
 	Err    error
 	Panic  string
+	// Hung: an end-to-end run in which the server neither answered nor closed the
+	// connection before the hang guard fired; Skipped: not run because a guard fired before.
+	Hung, Skipped bool
+}
+
+// HangGuard bounds the wait for ONE server reply in end-to-end runs (normally well under a
+// millisecond). It is not an oracle: when it fires the connection is closed, the run is
+// reported as not judged, the evidence is marked non-exhaustive and the remaining
+// end-to-end runs are skipped. The exhaustive (scripted transport) part cannot hang.
+var HangGuard = 60 * time.Second
+
+var guardFired atomic.Bool
+
+func init() {
+	if v := os.Getenv("VERIF_HANG_GUARD_S"); v != "" {
+		if n, err := strconv.Atoi(v); err == nil && n > 0 {
+			HangGuard = time.Duration(n) * time.Second
+		}
+	}
 }
 
 func (s *Spec) remote() net.Addr {
@@ -569,6 +593,9 @@ func (a addrConn) RemoteAddr() net.Addr { return a.remote }
 // RunPipe runs the history through the public NewServerConn over net.Pipe. build makes
 // the packets once the session identifier is known.
 func RunPipe(spec *Spec, fx *Fixture, build func(sid []byte) [][]byte) *Run {
+	if guardFired.Load() {
+		return &Run{Skipped: true}
+	}
 	s := NewSession(spec, fx)
 	cfg := s.ServerConfig()
 	cfg.AddHostKey(fx.HostKey)
@@ -603,6 +630,14 @@ func RunPipe(spec *Spec, fx *Fixture, build func(sid []byte) [][]byte) *Run {
 	}()
 
 	r := &Run{}
+	var hung atomic.Bool
+	watchdog := time.AfterFunc(HangGuard, func() {
+		hung.Store(true)
+		guardFired.Store(true)
+		c2.Close()
+		c1.Close()
+	})
+	defer watchdog.Stop()
 	ccfg := &ssh.ClientConfig{HostKeyCallback: ssh.InsecureIgnoreHostKey()}
 	ccfg.Rand = vf.NewRand("c32-client-rand")
 	raw, err := ssh.VerifC32DialRaw(c2, ccfg)
@@ -646,6 +681,7 @@ func RunPipe(spec *Spec, fx *Fixture, build func(sid []byte) [][]byte) *Run {
 	sent := 0
 	over := false // the server ended the dialogue (SUCCESS, DISCONNECT or connection closed)
 	for _, p := range packets {
+		watchdog.Reset(HangGuard)
 		sent++
 		s.count.Store(int64(sent))
 		if err := raw.WritePacket(p); err != nil {
@@ -673,8 +709,13 @@ func RunPipe(spec *Spec, fx *Fixture, build func(sid []byte) [][]byte) *Run {
 	}
 	obs.Consumed = sent
 	obs.HitEOF = !over
+	watchdog.Reset(HangGuard)
 	raw.Close()
 	sr := <-done
+	if hung.Load() {
+		r.Hung = true
+		return r
+	}
 	if sr.pan != "" {
 		r.Panic = sr.pan
 		return r
